@@ -70,7 +70,7 @@ recv = Fn(F, ["recv"], ret="r", extra_params="Tracked(k): Tracked<&mut K>",
                    "&& (head_complete(k0, fd) ==> main_data_buffer@.len() + flat(k.q[ded]).len() == total_size)\n"
                    "&& main_data_buffer@ + flat(k.q[ded]) == p.data + flat(k0.q[ded])\n"
                    "&& k.q == k0.q.insert(fd, k0.q[fd].drop_first()).insert(ded, k.q[ded])\n"
-                   "&& k.sock == k0.sock", ["C01", "C12", "C13", "C18"])],
+                   "&& k.sock == k0.sock", ["C01", "C02", "C12", "C13", "C18"])],
             decreases="total_size - main_data_buffer@.len()"),
     },
     hints=[
